@@ -153,8 +153,12 @@ def r3(ctx, facts, cfg):
         pops = npos(f, f.calls(r"TransitEventBuffer::pop_front$"))
         dpos = npos(f, disp)
         ok = bool(pops) and all(g.dominates(pops, p) for p in sp) and all(g.dominates(dpos, p) for p in sp) and const_val(a["value"]) == 1
+        nn = [(b, t) for (b, t) in [(bid, "F" if core_and_neg(g.term_cond(bid))[1] else "T") for bid in g.blocks
+                                    if g.term_cond(bid) is not None and var_ref(core_and_neg(g.term_cond(bid))[0]) == fv]]
+        ok = ok and bool(nn) and not g.exists_path([g.entry_node], sp, avoid_edges=nn)
         ctx.ob("C06.R3a", "_process_lowest_timestamp_transit_event:notify-after-pop", ok,
-               "the caller's flag is set to true only after the flush event was dispatched and popped", loc=n["loc"], fn=f)
+               "the caller's flag is set to true only after the flush event was dispatched and popped, and only when this event carried a flag "
+               "(non-null outcome of the pointer test)", loc=n["loc"], fn=f)
         # the flag variable is what _process_transit_event filled in (passed by reference), initialised to nullptr, tested non-null
         passed = any(var_ref(x) == fv for x in disp[0]["args"])
         init = decls.get(fv, {}).get("init")
